@@ -221,6 +221,12 @@ inductive Verdict where
   | done (bad : List String)      -- the main loop ran; one `incompatible_argument` per name
   deriving Inhabited, DecidableEq, Repr
 
+/-- an `incompatible_argument` diagnostic is reported -/
+def Verdict.diagnosed : Verdict → Bool
+  | .done bad => !bad.isEmpty
+  | .tvArgErr _ => true
+  | _ => false
+
 structure Outcome where
   verdict : Verdict
   ret : Ty                        -- the value of the call expression
@@ -254,14 +260,16 @@ def tvPass (tbl : ClassTable) (s : ASig) (c : VCall) (bound : List (String × Po
     | some m => tvPass tbl s c bound ps (acc ++ m)
     | none => if av.isDflt then tvPass tbl s c bound ps acc else .error p.name
 
+/-- `if typevar_map: param_typ = param.annotation.substitute_typevars(typevar_map)` :646 -/
+def applySol (sol : TvMap) (t : Ty) : Ty := if sol.isEmpty then t else subst sol t
+
 /-- one iteration of the main loop :1290 / `_check_param_type_compatibility` :629:
 `true` = an `incompatible_argument` is reported for this parameter -/
 def paramBad (tbl : ClassTable) (s : ASig) (c : VCall) (bound : List (String × Pos)) (sol : TvMap)
     (b : String × Pos) : Bool :=
   let p := s.find b.1
   let av := argValue c bound p b.2
-  let pty := if sol.isEmpty then p.ty else subst sol p.ty
-  !(ca tbl false pty av.val) && !av.isDflt
+  !(ca tbl false (applySol sol p.ty) av.val) && !av.isDflt
 
 def checkBound (tbl : ClassTable) (s : ASig) (c : VCall) (bound : List (String × Pos)) : Outcome :=
   if s.allTvs.isEmpty then
